@@ -37,29 +37,47 @@ theorem expand_contains (a b : LTRB Rat) : Contains (a.expand b) a ∧ Contains 
 abbrev contrib (c : ChildBox Rat) : LTRB Rat := c.contrib
 
 theorem fold_contains_acc (cs : List (ChildBox Rat)) (acc : LTRB Rat) :
-    Contains (cs.foldl (fun acc c => acc.expand (contrib c)) acc) acc := by
+    Contains (cs.foldl (fun acc c => if c.hasBox then acc.expand (contrib c) else acc) acc) acc := by
   induction cs generalizing acc with
   | nil => exact contains_refl _
-  | cons c t ih => exact contains_trans (ih _) (expand_contains acc (contrib c)).1
+  | cons c t ih =>
+    simp only [List.foldl_cons]
+    split_ifs
+    · exact contains_trans (ih _) (expand_contains acc (contrib c)).1
+    · exact ih _
 
-theorem fold_contains_child (cs : List (ChildBox Rat)) (acc : LTRB Rat) (c : ChildBox Rat) (hc : c ∈ cs) :
-    Contains (cs.foldl (fun acc c => acc.expand (contrib c)) acc) (contrib c) := by
+theorem fold_contains_child (cs : List (ChildBox Rat)) (acc : LTRB Rat) (c : ChildBox Rat) (hc : c ∈ cs)
+    (hb : c.hasBox = true) :
+    Contains (cs.foldl (fun acc c => if c.hasBox then acc.expand (contrib c) else acc) acc) (contrib c) := by
   induction cs generalizing acc with
   | nil => cases hc
   | cons d t ih =>
     rcases List.mem_cons.mp hc with h | h
     · subst h
+      simp only [List.foldl_cons, hb, if_true]
       exact contains_trans (fold_contains_acc t _) (expand_contains acc (contrib c)).2
-    · exact ih _ h
+    · simp only [List.foldl_cons]
+      exact ih _ h
 
 /-- **C12 (a parent's box contains its children's), any number of children, any boxes**:
     the box `calculate_bounding_boxes` accumulates for a group contains the contribution of every
-    child (the child's box, mapped by the child's own transform when the child is a group).
+    child that has a box (the child's box, mapped by the child's own transform when the child is a group;
+    a group with nothing in it has none — its reported boxes are placeholders, fix 2b03884).
     The same fold is used for the object, stroke, absolute and layer boxes. -/
-theorem C12_group_box_contains_children (m : Rat) (cs : List (ChildBox Rat)) (c : ChildBox Rat) (hc : c ∈ cs) :
+theorem C12_group_box_contains_children (m : Rat) (cs : List (ChildBox Rat)) (c : ChildBox Rat) (hc : c ∈ cs)
+    (hb : c.hasBox = true) :
     Contains (groupBox m cs) (contrib c) := by
   unfold groupBox
-  exact fold_contains_child cs _ c hc
+  exact fold_contains_child cs _ c hc hb
+
+/-- **an empty group changes nothing**: inserting a child without a box anywhere among the children
+    leaves the group's box as it was (before the fix its placeholder at the origin was united in) -/
+theorem C12_empty_group_child_invisible (m : Rat) (cs₁ cs₂ : List (ChildBox Rat)) (e : ChildBox Rat)
+    (he : e.hasBox = false) :
+    groupBox m (cs₁ ++ e :: cs₂) = groupBox m (cs₁ ++ cs₂) := by
+  unfold groupBox
+  rw [List.foldl_append, List.foldl_append, List.foldl_cons]
+  simp [he]
 
 /-! ### mapping a box by a transform -/
 
